@@ -18,6 +18,8 @@ import (
 	"fmt"
 	"math/big"
 	"os"
+	"sync/atomic"
+	"time"
 
 	"github.com/blinklabs-io/gouroboros/ledger/allegra"
 	"github.com/blinklabs-io/gouroboros/ledger/alonzo"
@@ -391,7 +393,18 @@ func main() {
 	}
 
 	results := make([][]obs, len(cases))
-	vlib.Parallel(len(cases), func(i int) { results[i] = run(cases[i]) })
+	deadline := c.Deadline(8*time.Minute, 9*time.Minute)
+	var skipped atomic.Int64
+	vlib.Parallel(len(cases), func(i int) {
+		if time.Now().After(deadline) {
+			skipped.Add(1)
+			return
+		}
+		results[i] = run(cases[i])
+	})
+	if n := skipped.Load(); n > 0 {
+		c.NotExhaustive(fmt.Sprintf("internal deadline reached (machine load): %d of %d cases were not evaluated", n, len(cases)))
+	}
 
 	decRej := int64(0)
 	for i, tc := range cases {
